@@ -284,8 +284,27 @@ package machine
 //@   property C22 C23 C27
 //@   ensures r == a
 
-//@ assumed func NewAllotment(portions []Portion) (r *Allotment, err error)
-//@   ensures err == nil ==> r != nil
-//@   note assumed (rational arithmetic of NewAllotment is not brought under contract yet); requires every non-remaining portion to have a non-nil Specific, established by wfValue of the stack
+//@ nnfold remCount(ps []Portion) = e.Remaining ? 1 : 0
+//@ define wfPortions(ps []Portion) bool = forall i int :: {ps[i]} 0 <= i && i < len(ps) ==> (!ps[i].Remaining ==> ps[i].Specific != nil && deref(ps[i].Specific).den > 0 && deref(ps[i].Specific).num >= 0)
 
-//@ define wfValue(v Value) bool = v != nil && (is(v, *MonetaryInt) ==> v.(*MonetaryInt) != nil) && (is(v, Monetary) ==> v.(Monetary).Amount != nil) && (is(v, Funding) ==> wfParts(v.(Funding).Parts))
+//@ func NewAllotment(portions []Portion) (r *Allotment, err error)
+//@   property C22 C23 C24 C27
+//@   requires wfPortions(portions)
+//@   ensures remCount(portions) > 1 ==> err != nil
+//@   ensures err == nil ==> r != nil && len(deref(r)) == len(portions) && posDen(deref(r))
+//@   ensures err == nil ==> ratsum(deref(r)) <= 1
+//@   ensures err == nil && remCount(portions) > 0 ==> ratsum(deref(r)) == 1
+//@   ensures err == nil ==> forall i int :: {portions[i]} 0 <= i && i < len(portions) && !portions[i].Remaining ==> deref(r)[i] == deref(portions[i].Specific)
+//@   reveal rq ratio
+//@   loop 1:
+//@     mention ratsum_upto(allotment, i + 1)
+//@     mention remCount_upto(portions, i + 1)
+//@     invariant 0 <= i && i <= n && n == len(portions) && len(allotment) == n && total != nil && deref(total).den > 0
+//@     invariant ratio(deref(total)) == ratsum_upto(allotment, i) && ratio(deref(total)) >= 0
+//@     invariant (remainingIdx == nil) == (remCount_upto(portions, i) == 0)
+//@     invariant remainingIdx != nil ==> remCount_upto(portions, i) == 1 && 0 <= deref(remainingIdx) && deref(remainingIdx) < i && portions[deref(remainingIdx)].Remaining && allotment[deref(remainingIdx)].num == 0 && allotment[deref(remainingIdx)].den == 1
+//@     invariant forall j int :: {allotment[j]} 0 <= j && j < i ==> allotment[j].num >= 0 && allotment[j].den > 0
+//@     invariant forall j int :: {allotment[j]} {portions[j]} 0 <= j && j < i && !portions[j].Remaining ==> allotment[j] == deref(portions[j].Specific)
+//@     decreases n - i
+
+//@ define wfValue(v Value) bool = v != nil && (is(v, *MonetaryInt) ==> v.(*MonetaryInt) != nil) && (is(v, Monetary) ==> v.(Monetary).Amount != nil) && (is(v, Funding) ==> wfParts(v.(Funding).Parts)) && (is(v, Portion) ==> (!v.(Portion).Remaining ==> v.(Portion).Specific != nil && deref(v.(Portion).Specific).den > 0 && deref(v.(Portion).Specific).num >= 0)) && (is(v, Allotment) ==> posDen(v.(Allotment)))
